@@ -45,6 +45,8 @@ func runC01(c *Ctx) {
 		return
 	}
 	r.Funcs[c.FuncKey(pl)] = true
+	pl = c.parserBody(pl)
+	r.Funcs[c.FuncKey(pl)] = true
 	param := pl.Params[0]
 	field := func(n string) *types.Var { return c.FieldVar(c.Client, "Line", n) }
 
@@ -135,7 +137,7 @@ func runC01(c *Ctx) {
 	// the returned line
 	var lineAlloc *ssa.Alloc
 	funcInstrs(pl, func(in ssa.Instruction) {
-		if rt, ok := in.(*ssa.Return); ok && len(rt.Results) == 1 {
+		if rt, ok := in.(*ssa.Return); ok && len(rt.Results) >= 1 {
 			if al, ok := rt.Results[0].(*ssa.Alloc); ok {
 				lineAlloc = al
 			}
@@ -233,12 +235,21 @@ func runC01(c *Ctx) {
 			if c.constTableValue(o) {
 				continue
 			}
+			if c.upperCasedResult(o, 0) {
+				continue
+			}
 			ok, why = false, "verb derives from "+o.String()
 		}
 		r.Add("R4", fmt.Sprintf("cmd-store#%d", i+1), c.InstrPos(s), c.FuncKey(s.Parent()), "verb is a constant or upper-cased", ok, why)
 	}
 	// ---- R6
 	c.trailingRule("R6", fpl, lineAlloc, fparam)
+	r.Rule("R14", "a handler registered for the verb receives the line: every handler of the verb is started on its own iteration's value (shared with C04.R14 - no loop variable captured by the per-handler goroutine)")
+	c.loopCaptureRule("R14")
+	r.Rule("R15", "every parsed line reaches the event loop: the receive goroutine hands each accepted line over by a blocking send before the next read (shared with C03.R1)")
+	if pf := c.producerFrame(); r.Anchor("R15", "the receive goroutine that feeds the inbound queue", pf != nil) {
+		c.handoverRule("R15", pf.Member)
+	}
 	// ---- R13: who the line is from
 	r.Rule("R13", "the source is split into nick, ident and host exactly when it has the nick!user@host form and is otherwise kept whole as the host: in the parser every store to Line.Nick / Line.Ident is the corresponding result of parseUserHost under its ok result, and every store to Line.Host is that function's host result under ok, or the source itself")
 	{
@@ -372,6 +383,9 @@ func runC01(c *Ctx) {
 				if fv, _ := loadedField(o); fv == cmdVar {
 					continue
 				}
+				if c.upperCasedResult(o, 0) {
+					continue
+				}
 				okU, why = false, "compared value derives from "+o.String()+", which is not upper-cased"
 			}
 			r.Add("R7", fmt.Sprintf("verb-compare:%s#%d", c.FuncKey(fn), n7), c.InstrPos(bo), c.FuncKey(fn), "verb comparisons are case-insensitive (upper-cased operand)", okU, why)
@@ -382,117 +396,7 @@ func runC01(c *Ctx) {
 	c.c01Accessors()
 
 	// ---- R5
-	pf := c.producerFrame()
-	r.Anchor("R5", "receive goroutine with its send on the inbound queue", pf != nil)
-	if pf == nil {
-		return
-	}
-	// the frame that parses and enqueues: the goroutine's own body, or the one helper it calls per line
-	producer, sendOp := pf.Frame, pf.Send
-	r.Funcs[c.FuncKey(pf.Member)] = true
-	r.Funcs[c.FuncKey(producer)] = true
-	var sent ssa.Value
-	if s, ok := sendOp.In.(*ssa.Send); ok {
-		sent = s.X
-	} else if sendOp.Sel != nil {
-		sent = sendOp.Sel.States[sendOp.State].Send
-	}
-	call, isCall := sent.(*ssa.Call)
-	okSent := isCall && call.Call.StaticCallee() == pl
-	r.Add("R5", "enqueue-is-parse-result", c.InstrPos(sendOp.In), c.FuncKey(producer), "the enqueued line is ParseLine's result", okSent, "sent value "+sent.String())
-	if !okSent {
-		return
-	}
-	// stores through the result
-	bad := ""
-	for _, ref := range *call.Referrers() {
-		fa, ok := ref.(*ssa.FieldAddr)
-		if !ok {
-			continue
-		}
-		fv, _ := fieldOf(fa)
-		for _, r2 := range *fa.Referrers() {
-			if s, ok := r2.(*ssa.Store); ok && s.Addr == ssa.Value(fa) && fv.Name() != "Time" {
-				bad = "field " + fv.Name() + " is modified at " + c.InstrPos(s)
-			}
-		}
-	}
-	r.Add("R5", "only-time-touched", c.InstrPos(call), c.FuncKey(producer), "between parse and enqueue only Line.Time is set", bad == "", bad)
-	// argument chain
-	arg := call.Call.Args[0]
-	condsFrom := call.Block()
-	helperConds := 0
-	if pr, isP := arg.(*ssa.Parameter); isP && pf.Via != nil && pr.Parent() == pf.Frame {
-		// the line is handed to the helper by the goroutine: continue with the argument at that call, and count the
-		// conditions inside the helper that decide whether the parser is reached at all (there must be none)
-		for i, q := range pf.Frame.Params {
-			if q == pr && i < len(pf.Via.Call.Args) {
-				arg = pf.Via.Call.Args[i]
-			}
-		}
-		helperConds = len(CondsAt(call.Block()))
-		condsFrom = pf.Via.Block()
-	}
-	okArg, whyArg := false, "ParseLine's argument is not strings.Trim(<read result>, \"\\r\\n\")"
-	// the text of a line read: result 0 of a bufio read, trimmed here; or result 0 of a read helper that trims
-	var textOf ssa.Value = arg
-	trimmedHere := false
-	if tr, ok := arg.(*ssa.Call); ok && calleeName(&tr.Call) == "strings.Trim" {
-		if cut, ok := constString(tr.Call.Args[1]); ok && (cut == "\r\n" || cut == "\n\r") {
-			textOf, trimmedHere = tr.Call.Args[0], true
-		}
-	}
-	{
-		{
-			if ex, ok := textOf.(*ssa.Extract); ok && ex.Index == 0 {
-				if rd, ok := ex.Tuple.(*ssa.Call); ok {
-					n := calleeName(&rd.Call)
-					isRead := (n == "(*bufio.Reader).ReadString" || n == "(*bufio.Reader).ReadBytes") && trimmedHere
-					if !isRead && !rd.Call.IsInvoke() {
-						if _, trimmed, okH := c.readHelperInfo(rd.Call.StaticCallee()); okH && trimmed != trimmedHere {
-							isRead = true
-						}
-					}
-					if isRead {
-						okArg, whyArg = true, "ParseLine(strings.Trim(ReadString('\\n'), \"\\r\\n\"))"
-						// no branch between the read and the parse other than the error test
-						if helperConds > 0 {
-							okArg, whyArg = false, "a condition inside the per-line helper decides whether a line is parsed"
-						}
-						for _, cd := range CondsAt(condsFrom) {
-							cd2 := unwrapNot(cd)
-							isErr := false
-							if bo, ok := cd2.V.(*ssa.BinOp); ok {
-								for _, op := range []ssa.Value{bo.X, bo.Y} {
-									if e2, ok := op.(*ssa.Extract); ok && e2.Tuple == ssa.Value(rd) && e2.Index == 1 {
-										isErr = true
-									}
-								}
-							}
-							if !isErr && cd.If != nil && instrDominates(rd, cd.If) {
-								okArg, whyArg = false, "a condition other than the read error decides whether a line is parsed (at "+c.InstrPos(cd.If)+")"
-							}
-						}
-					}
-				}
-			}
-		}
-	}
-	r.Add("R5", "parse-argument", c.InstrPos(call), c.FuncKey(producer), "the parser sees the received line minus its CR/LF terminator, for every line read without error", okArg, whyArg)
-	// the send is reached whenever the result is non-nil: its only guard is the nil test of the result
-	okGuard := true
-	whyG := "guarded only by result != nil"
-	for _, cd := range CondsAt(sendOp.In.Block()) {
-		if cd.If == nil || !instrDominates(call, cd.If) {
-			continue
-		}
-		cd2 := unwrapNot(cd)
-		bo, ok := cd2.V.(*ssa.BinOp)
-		if !ok || !((bo.X == ssa.Value(call) && isNilConst(bo.Y)) || (bo.Y == ssa.Value(call) && isNilConst(bo.X))) {
-			okGuard, whyG = false, "the enqueue also depends on the condition at "+c.InstrPos(cd.If)
-		}
-	}
-	r.Add("R5", "enqueue-guard", c.InstrPos(sendOp.In), c.FuncKey(producer), "every successfully parsed line is enqueued", okGuard, whyG)
+	c.everyLineParsedRule("R5")
 }
 
 // originsLocal: phi/conversion closure within one function (no parameters-to-callers step).
@@ -916,37 +820,7 @@ func runC10(c *Ctx) {
 		r.Add("R5", "no-flood-store", "-", "", "no store to Config.Flood of an existing Config anywhere in package client", nFl == 0, fmt.Sprintf("%d stores", nFl))
 	}
 	r.Rule("R6", "Flood toggled by the application is the Flood the writer reads: the Conn keeps the caller's own Config object - every store to the Conn's config field stores the constructor's parameter or the result of a Config constructor, never the address of a copy")
-	{
-		nC := 0
-		for _, fn := range c.clientFuncs() {
-			funcInstrs(fn, func(in ssa.Instruction) {
-				st, ok := in.(*ssa.Store)
-				if !ok {
-					return
-				}
-				if fv, _ := fieldOf(st.Addr); fv != a.Cfg {
-					return
-				}
-				nC++
-				okC, whyC := true, "the caller's Config (or a freshly constructed default)"
-				for _, o := range c.Origins(st.Val) {
-					switch t := o.(type) {
-					case *ssa.Parameter:
-					case *ssa.Call:
-						if cal := t.Call.StaticCallee(); cal == nil || !c.InModuleFn(cal) {
-							okC, whyC = false, "stores the result of "+calleeName(&t.Call)
-						}
-					case *ssa.Alloc:
-						okC, whyC = false, "stores the address of a local copy made at "+c.InstrPos(t)+": the application's Config is no longer the one the client reads"
-					default:
-						okC, whyC = false, "stores "+o.String()
-					}
-				}
-				r.Add("R6", "config-identity:"+c.FuncKey(fn), c.InstrPos(st), c.FuncKey(fn), "the client reads the application's own Config object", okC, whyC)
-			})
-		}
-		r.Floor("R6", "stores to the Conn's config field", nC, 1)
-	}
+	c.configIdentityRule("R6")
 	// the rate limiter: the client method taking the line length and returning a time.Duration that reads the clock
 	// (by shape, so that renaming it or moving it onto an embedded struct does not lose it)
 	var rl *ssa.Function
@@ -1565,9 +1439,10 @@ func (c *Ctx) parserTrailingRule(rule string) {
 	if !r.Anchor(rule, "ParseLine", pl != nil) {
 		return
 	}
+	pl = c.parserBody(pl)
 	var lineAlloc *ssa.Alloc
 	funcInstrs(pl, func(in ssa.Instruction) {
-		if rt, ok := in.(*ssa.Return); ok && len(rt.Results) == 1 {
+		if rt, ok := in.(*ssa.Return); ok && len(rt.Results) >= 1 {
 			if al, ok := rt.Results[0].(*ssa.Alloc); ok {
 				lineAlloc = al
 			}
@@ -1725,4 +1600,261 @@ func (c *Ctx) isCutLike(fn *ssa.Function) bool {
 		}
 	})
 	return !bad && nT >= 1 && nF >= 1
+}
+
+// everyLineParsedRule: in the receive goroutine the value sent on the inbound
+// queue is the parser's result (only Time is touched in between), the parser's
+// argument is the line read minus its terminator, no condition other than the
+// read error decides whether a line is parsed, and a parsed line is always
+// enqueued.
+func (c *Ctx) everyLineParsedRule(rule string) {
+	r := c.R
+	pl := c.Func(c.Client, "ParseLine")
+	if !r.Anchor(rule, "ParseLine", pl != nil) {
+		return
+	}
+	pf := c.producerFrame()
+	r.Anchor(rule, "receive goroutine with its send on the inbound queue", pf != nil)
+	if pf == nil {
+		return
+	}
+	// the frame that parses and enqueues: the goroutine's own body, or the one helper it calls per line
+	producer, sendOp := pf.Frame, pf.Send
+	r.Funcs[c.FuncKey(pf.Member)] = true
+	r.Funcs[c.FuncKey(producer)] = true
+	var sent ssa.Value
+	if s, ok := sendOp.In.(*ssa.Send); ok {
+		sent = s.X
+	} else if sendOp.Sel != nil {
+		sent = sendOp.Sel.States[sendOp.State].Send
+	}
+	call, isCall := sent.(*ssa.Call)
+	okSent := isCall && call.Call.StaticCallee() == pl
+	r.Add(rule, "enqueue-is-parse-result", c.InstrPos(sendOp.In), c.FuncKey(producer), "the enqueued line is ParseLine's result", okSent, "sent value "+sent.String())
+	if !okSent {
+		return
+	}
+	// stores through the result
+	bad := ""
+	for _, ref := range *call.Referrers() {
+		fa, ok := ref.(*ssa.FieldAddr)
+		if !ok {
+			continue
+		}
+		fv, _ := fieldOf(fa)
+		for _, r2 := range *fa.Referrers() {
+			if s, ok := r2.(*ssa.Store); ok && s.Addr == ssa.Value(fa) && fv.Name() != "Time" {
+				bad = "field " + fv.Name() + " is modified at " + c.InstrPos(s)
+			}
+		}
+	}
+	r.Add(rule, "only-time-touched", c.InstrPos(call), c.FuncKey(producer), "between parse and enqueue only Line.Time is set", bad == "", bad)
+	// argument chain
+	arg := call.Call.Args[0]
+	condsFrom := call.Block()
+	helperConds := 0
+	if pr, isP := arg.(*ssa.Parameter); isP && pf.Via != nil && pr.Parent() == pf.Frame {
+		// the line is handed to the helper by the goroutine: continue with the argument at that call, and count the
+		// conditions inside the helper that decide whether the parser is reached at all (there must be none)
+		for i, q := range pf.Frame.Params {
+			if q == pr && i < len(pf.Via.Call.Args) {
+				arg = pf.Via.Call.Args[i]
+			}
+		}
+		helperConds = len(CondsAt(call.Block()))
+		condsFrom = pf.Via.Block()
+	}
+	okArg, whyArg := false, "ParseLine's argument is not strings.Trim(<read result>, \"\\r\\n\")"
+	// the text of a line read: result 0 of a bufio read, trimmed here; or result 0 of a read helper that trims
+	var textOf ssa.Value = arg
+	trimmedHere := false
+	if tr, ok := arg.(*ssa.Call); ok && calleeName(&tr.Call) == "strings.Trim" {
+		if cut, ok := constString(tr.Call.Args[1]); ok && (cut == "\r\n" || cut == "\n\r") {
+			textOf, trimmedHere = tr.Call.Args[0], true
+		}
+	}
+	{
+		{
+			if ex, ok := textOf.(*ssa.Extract); ok && ex.Index == 0 {
+				if rd, ok := ex.Tuple.(*ssa.Call); ok {
+					n := calleeName(&rd.Call)
+					isRead := (n == "(*bufio.Reader).ReadString" || n == "(*bufio.Reader).ReadBytes") && trimmedHere
+					if !isRead && !rd.Call.IsInvoke() {
+						if _, trimmed, okH := c.readHelperInfo(rd.Call.StaticCallee()); okH && trimmed != trimmedHere {
+							isRead = true
+						}
+					}
+					if isRead {
+						okArg, whyArg = true, "ParseLine(strings.Trim(ReadString('\\n'), \"\\r\\n\"))"
+						// no branch between the read and the parse other than the error test
+						if helperConds > 0 {
+							okArg, whyArg = false, "a condition inside the per-line helper decides whether a line is parsed"
+						}
+						for _, cd := range CondsAt(condsFrom) {
+							cd2 := unwrapNot(cd)
+							isErr := false
+							if bo, ok := cd2.V.(*ssa.BinOp); ok {
+								for _, op := range []ssa.Value{bo.X, bo.Y} {
+									if e2, ok := op.(*ssa.Extract); ok && e2.Tuple == ssa.Value(rd) && e2.Index == 1 {
+										isErr = true
+									}
+								}
+							}
+							if !isErr && cd.If != nil && instrDominates(rd, cd.If) {
+								okArg, whyArg = false, "a condition other than the read error decides whether a line is parsed (at "+c.InstrPos(cd.If)+")"
+							}
+						}
+					}
+				}
+			}
+		}
+	}
+	r.Add(rule, "parse-argument", c.InstrPos(call), c.FuncKey(producer), "the parser sees the received line minus its CR/LF terminator, for every line read without error", okArg, whyArg)
+	// the send is reached whenever the result is non-nil: its only guard is the nil test of the result
+	okGuard := true
+	whyG := "guarded only by result != nil"
+	for _, cd := range CondsAt(sendOp.In.Block()) {
+		if cd.If == nil || !instrDominates(call, cd.If) {
+			continue
+		}
+		cd2 := unwrapNot(cd)
+		bo, ok := cd2.V.(*ssa.BinOp)
+		if !ok || !((bo.X == ssa.Value(call) && isNilConst(bo.Y)) || (bo.Y == ssa.Value(call) && isNilConst(bo.X))) {
+			okGuard, whyG = false, "the enqueue also depends on the condition at "+c.InstrPos(cd.If)
+		}
+	}
+	r.Add(rule, "enqueue-guard", c.InstrPos(sendOp.In), c.FuncKey(producer), "every successfully parsed line is enqueued", okGuard, whyG)
+}
+
+// configIdentityRule: the Conn keeps the caller's own Config object.
+func (c *Ctx) configIdentityRule(rule string) {
+	r, a := c.R, c.A
+	{
+		nC := 0
+		for _, fn := range c.clientFuncs() {
+			funcInstrs(fn, func(in ssa.Instruction) {
+				st, ok := in.(*ssa.Store)
+				if !ok {
+					return
+				}
+				if fv, _ := fieldOf(st.Addr); fv != a.Cfg {
+					return
+				}
+				nC++
+				okC, whyC := true, "the caller's Config (or a freshly constructed default)"
+				for _, o := range c.Origins(st.Val) {
+					switch t := o.(type) {
+					case *ssa.Parameter:
+					case *ssa.Call:
+						if cal := t.Call.StaticCallee(); cal == nil || !c.InModuleFn(cal) {
+							okC, whyC = false, "stores the result of "+calleeName(&t.Call)
+						}
+					case *ssa.Alloc:
+						okC, whyC = false, "stores the address of a local copy made at "+c.InstrPos(t)+": the application's Config is no longer the one the client reads"
+					default:
+						okC, whyC = false, "stores "+o.String()
+					}
+				}
+				r.Add(rule, "config-identity:"+c.FuncKey(fn), c.InstrPos(st), c.FuncKey(fn), "the client reads the application's own Config object", okC, whyC)
+			})
+		}
+		r.Floor(rule, "stores to the Conn's config field", nC, 1)
+	}
+}
+
+// upperCasedResult: v is a result of a module function (a helper that takes a
+// CTCP message apart, say) every return of which yields, in that position, a
+// constant or the result of strings.ToUpper.
+func (c *Ctx) upperCasedResult(v ssa.Value, depth int) bool {
+	if depth > 2 {
+		return false
+	}
+	var call *ssa.Call
+	idx := 0
+	switch t := v.(type) {
+	case *ssa.Extract:
+		call, _ = t.Tuple.(*ssa.Call)
+		idx = t.Index
+	case *ssa.Call:
+		call = t
+	}
+	if call == nil || call.Call.IsInvoke() {
+		return false
+	}
+	callee := call.Call.StaticCallee()
+	if callee == nil || !c.InModuleFn(callee) || callee.Blocks == nil {
+		return false
+	}
+	n, ok := 0, true
+	funcInstrs(callee, func(in ssa.Instruction) {
+		rt, isR := in.(*ssa.Return)
+		if !isR || idx >= len(rt.Results) {
+			return
+		}
+		n++
+		for _, o := range c.originsLocal(retVal(rt, idx)) {
+			if _, isC := constString(o); isC {
+				continue
+			}
+			if cl, isCall := o.(*ssa.Call); isCall && calleeName(&cl.Call) == "strings.ToUpper" {
+				continue
+			}
+			if c.upperCasedResult(o, depth+1) {
+				continue
+			}
+			ok = false
+		}
+	})
+	return ok && n > 0
+}
+
+// parserBody: the function that does the parsing: ParseLine itself, or - when
+// ParseLine only hands its parameter to one unexported function and passes on
+// that function's first result (nil when it reports an error) - that function.
+func (c *Ctx) parserBody(pl *ssa.Function) *ssa.Function {
+	var inner *ssa.Call
+	n, other := 0, false
+	funcInstrs(pl, func(in ssa.Instruction) {
+		switch t := in.(type) {
+		case *ssa.Call:
+			n++
+			inner = t
+		case *ssa.Store, *ssa.MapUpdate, *ssa.Go, *ssa.Defer, *ssa.Alloc, *ssa.MakeMap, *ssa.MakeSlice:
+			other = true
+		}
+	})
+	if n != 1 || other || inner == nil || inner.Call.IsInvoke() {
+		return pl
+	}
+	h := inner.Call.StaticCallee()
+	if h == nil || !c.InModuleFn(h) || h.Package() != c.Client || h.Blocks == nil || (h.Object() != nil && h.Object().Exported()) || addrTaken(h) || len(c.staticCallers(h)) != 1 {
+		return pl
+	}
+	if len(inner.Call.Args) != 1 || inner.Call.Args[0] != ssa.Value(pl.Params[0]) || len(h.Params) != 1 {
+		return pl
+	}
+	// every return of ParseLine is nil or the helper's first result
+	ok := true
+	funcInstrs(pl, func(in ssa.Instruction) {
+		rt, isR := in.(*ssa.Return)
+		if !isR || len(rt.Results) != 1 {
+			return
+		}
+		for _, o := range c.originsLocal(rt.Results[0]) {
+			if isNilConst(o) {
+				continue
+			}
+			if o == ssa.Value(inner) {
+				continue
+			}
+			if ex, isE := o.(*ssa.Extract); isE && ex.Tuple == ssa.Value(inner) && ex.Index == 0 {
+				continue
+			}
+			ok = false
+		}
+	})
+	if !ok {
+		return pl
+	}
+	return h
 }
